@@ -137,6 +137,13 @@ func report(idx uint64, s *Sim, withTrace bool) (r RunReport) {
 	return r
 }
 
+var keepAlive []any
+
+// KeepAlive keeps x reachable for the life of the worker process.  Engines
+// use it for objects whose finalizers touch bubble channels (go-cache stops
+// its janitor from a finalizer, which is fatal from outside the bubble).
+func KeepAlive(x any) { keepAlive = append(keepAlive, x) }
+
 // TapeFile is the replay file format.
 type TapeFile struct {
 	Property  string     `json:"property"`
